@@ -151,9 +151,13 @@ struct vf_model { int in[VF_POOL]; int n; };
 #endif
 static int vf_id_of_node(const struct cstl_bintree_node * b)
 {
-    int i, r = -1;
-    for (i = 0; i < VF_POOL; i++) if (LIVE(i) && b == NODE(i)) r = i;
-    return r;
+    /* the id is read from the element that would contain the node and then validated against the
+     * address of that pool element: the result is i iff b is the node of pool element i, else -1
+     * (a foreign pointer yields some value that fails the validation) */
+    int i;
+    if (b == NULL) return -1;
+    i = ((const struct vf_el *)((const char *)b - offsetof(struct vf_el, hn.bn)))->id;
+    return (i >= 0 && i < VF_POOL && LIVE(i) && b == NODE(i)) ? i : -1;
 }
 static int vf_id_of_elem(const void * e)
 {
